@@ -67,6 +67,24 @@ def purePow : List String → Option String
         | some true => "paid"
         | some false => "not-enough-total"
         | none => "unreviewed")
+  | ["plasma-avail", g, evs, h, blks] => do
+      -- availability on a chain (plasma-reorg stream): genesis QSR, the plasma contract's receives for the account as
+      -- height:delta pairs, the acknowledged height, the account's blocks as c<confirmation height>:fused / p:fused
+      let g ← g.toInt?
+      let h ← h.toNat?
+      let evs ← (if evs = "-" then some [] else (evs.splitOn ",").mapM (fun e => match e.splitOn ":" with
+        | [eh, d] => do pure (Pow.FuseEv.mk (← eh.toNat?) (← d.toInt?))
+        | _ => none))
+      let blks ← (if blks = "-" then some [] else (blks.splitOn ",").mapM (fun b => match b.splitOn ":" with
+        | [c, f] => do
+            let f ← f.toNat?
+            if c = "p" then pure (Pow.AccBlk.mk none f)
+            else if c.startsWith "c" then pure (Pow.AccBlk.mk (some (← (c.drop 1).toNat?)) f)
+            else none
+        | _ => none))
+      pure (match Pow.availableOnChain g evs blks h with
+        | some a => s!"ok {a}"
+        | none => "neg")
   | ["plasma-diff", p] => do
       let p ← p.toNat?
       match Pow.difficultyForPlasma p with
